@@ -1,4 +1,7 @@
+pub mod c07;
 pub mod c19;
+pub mod common;
+pub mod c20;
 
 use crate::engine::pool::Handler;
 use crate::engine::report::Tier;
@@ -6,7 +9,9 @@ use serde_json::Value;
 
 pub fn run(prop: &str, tier: Tier, replay: Option<Value>) -> ! {
     match prop {
+        "C07" => c07::run(tier, replay),
         "C19" => c19::run(tier, replay),
+        "C20" => c20::run(tier, replay),
         _ => crate::engine::report::machinery_fail(&format!("unknown property {prop}")),
     }
 }
@@ -14,6 +19,7 @@ pub fn run(prop: &str, tier: Tier, replay: Option<Value>) -> ! {
 pub fn worker(kind: &str) -> Handler {
     match kind {
         "c19" => c19::worker(),
+        "script" => common::script_worker(),
         _ => crate::engine::report::machinery_fail(&format!("unknown worker kind {kind}")),
     }
 }
